@@ -508,6 +508,10 @@ func (m *monC08) Quiescent(td *TD, p Pending) *Viol {
 	}
 	// ... and again while the next hand's gate is waiting (set up, not everybody heard from, timeout pending): a
 	// player who sits in during that wait is seated-in when the opening is decided
+	if cur.State.Status == pt.TableStateStatus_TableGameStandby && cur.State.GameState == nil && td.env.Sleepers() > 0 {
+		// the open was refused and tableGameOpen sleeps in its retry loop: the opening is still being decided
+		m.liveInAtGate[cur.State.GameCount] = m.liveIn(cur)
+	}
 	if cur.State.Status == pt.TableStateStatus_TableGameStandby {
 		if og := pt.VerifOpenGameManager(td.te); og != nil {
 			gs := og.GetState()
